@@ -22,6 +22,7 @@ type SpecFn struct {
 	Ret    string
 	Body   ast.Expr // nil = uninterpreted
 	Pkg    *types.Package
+	Rec    bool // recursive definition: an uninterpreted function unfolded once at the terms a clause names
 }
 
 type Clause struct {
@@ -37,6 +38,7 @@ type FuncContract struct {
 	Requires     []Clause
 	Assumes      []Clause // input assumptions that are not caller obligations (listed in evidence)
 	Ensures      []Clause
+	Defines      []Clause // definitional postconditions of a pure function: assumed at call sites, not checkable in the body
 	LoopInv      map[int][]Clause
 	LoopDec      map[int]ast.Expr
 	StreamInv    map[int][]Clause
@@ -275,6 +277,8 @@ func (cs *Contracts) parseFile(text string, pkg *types.Package, file string) (er
 			} else {
 				cur.Ensures = append(cur.Ensures, mkClause(l[8:]))
 			}
+		case strings.HasPrefix(l, "defines "):
+			cur.Defines = append(cur.Defines, mkClause(l[8:]))
 		case strings.HasPrefix(l, "use "):
 			curLemma.Uses = append(curLemma.Uses, mkClause(l[4:]))
 		case strings.HasPrefix(l, "case "):
@@ -319,8 +323,13 @@ func (cs *Contracts) parseFile(text string, pkg *types.Package, file string) (er
 			}
 			cs.Classes[lab] = &FindingClass{Name: lab, Expr: parseSpecExpr(body), Src: body, Pkg: pkg}
 		case strings.HasPrefix(l, "spec "):
-			// spec name(p T, q U) R = body
+			// spec [rec] name(p T, q U) R = body
 			rest := l[5:]
+			rec := false
+			if strings.HasPrefix(rest, "rec ") {
+				rec = true
+				rest = rest[4:]
+			}
 			var body ast.Expr
 			if i := strings.Index(rest, " = "); i >= 0 {
 				body = parseSpecExpr(rest[i+3:])
@@ -328,7 +337,7 @@ func (cs *Contracts) parseFile(text string, pkg *types.Package, file string) (er
 			}
 			open := strings.Index(rest, "(")
 			cl := strings.LastIndex(rest, ")")
-			sf := &SpecFn{Name: strings.TrimSpace(rest[:open]), Ret: strings.TrimSpace(rest[cl+1:]), Body: body, Pkg: pkg}
+			sf := &SpecFn{Name: strings.TrimSpace(rest[:open]), Ret: strings.TrimSpace(rest[cl+1:]), Body: body, Pkg: pkg, Rec: rec}
 			sf.Params, sf.PTypes = parseParams(rest[open+1 : cl])
 			if old, dup := cs.Specs[sf.Name]; dup && old.Pkg != pkg {
 				panic("spec function " + sf.Name + " defined in two packages")
@@ -353,6 +362,8 @@ type SpecEnv struct {
 	pkg   *types.Package
 	oldSt *BState // state old() refers to (default: entry state of the unit)
 	oldFr *Frame
+	unfold   int  // >0: inside the body of a recursive spec function (inner applications stay uninterpreted)
+	expandFn bool // real functions called in the expression are expanded from their SSA (lemma top level); else by contract
 }
 
 func (env *SpecEnv) with(name string, v SV) *SpecEnv {
@@ -392,6 +403,16 @@ func (env *SpecEnv) lookupVar(name string) SV {
 		sub.fr = lf
 		sub.bound = map[string]SV{}
 		return sub.lookupVar(m[2])
+	}
+	if env.fr.contractOnly {
+		for _, p := range env.fr.fn.Params {
+			if p.Name() == name {
+				return env.fr.regs[p]
+			}
+		}
+	}
+	if env.fr.fn == nil {
+		panic("spec: unknown identifier " + name)
 	}
 	// heap-allocated (captured) variables of the current function
 	for _, b := range env.fr.fn.Blocks {
@@ -465,6 +486,14 @@ func structOf(t types.Type) *types.Struct {
 	}
 	s, _ := t.Underlying().(*types.Struct)
 	return s
+}
+
+// evalGoal evaluates an expression that is about to be proved (not assumed): recursive spec functions are then
+// unfolded in the direction body ==> f(t); in assumption context in the direction f(t) ==> body.
+func (env *SpecEnv) evalGoal(x ast.Expr) SV {
+	env.e.goalCtx++
+	defer func() { env.e.goalCtx-- }()
+	return env.eval(x)
 }
 
 func (env *SpecEnv) eval(x ast.Expr) SV {
@@ -651,17 +680,141 @@ func (env *SpecEnv) call(n *ast.CallExpr) SV {
 		for _, a := range n.Args {
 			args = append(args, env.eval(a))
 		}
-		if sf.Body != nil {
+		if sf.Body != nil && !sf.Rec {
 			sub := env
 			for i, p := range sf.Params {
 				sub = sub.with(p, args[i])
 			}
 			return sub.eval(sf.Body)
 		}
-		return env.e.applyUF(name, args, env.specRetType(sf))
+		uf := env.e.applyUF(name, args, env.specRetType(sf))
+		if sf.Rec && env.unfold == 0 {
+			var ls []*Term
+			for _, a := range args {
+				leaves(a, &ls)
+			}
+			bound := false
+			key := name
+			if env.e.goalCtx > 0 {
+				key = "goal:" + name
+			}
+			for _, l := range ls {
+				if hasBound(l) {
+					bound = true
+				}
+				key += fmt.Sprintf(" %d", l.id)
+			}
+			if !bound && !env.e.unfolded[key] {
+				if env.e.unfolded == nil {
+					env.e.unfolded = map[string]bool{}
+				}
+				env.e.unfolded[key] = true
+				sub := env
+				for i, p := range sf.Params {
+					sub = sub.with(p, args[i])
+				}
+				sub.unfold = 1
+				body := sub.eval(sf.Body)
+				var lu, lb []*Term
+				leaves(uf, &lu)
+				leaves(body, &lb)
+				for i := range lu {
+					switch {
+					case lu[i].Sort != SBool:
+						env.e.assume(eq(lu[i], lb[i]))
+					case env.e.goalCtx > 0:
+						// only for the obligation being built, not for later ones
+						env.e.goalLocal = append(env.e.goalLocal, implies(lb[i], lu[i]))
+					default:
+						env.e.assume(implies(lu[i], lb[i]))
+					}
+				}
+			}
+		}
+		return uf
+	}
+	if r, ok := env.realCall(n); ok {
+		return r
 	}
 	panic("spec: unknown function " + name)
 }
+
+// realCall evaluates a call of a real Go function or method written in a contract: x.M(args) or F(args).
+// At the top level of a lemma the function's SSA is expanded (its summary); elsewhere the call is by contract.
+func (env *SpecEnv) realCall(n *ast.CallExpr) (SV, bool) {
+	e := env.e
+	if e.w == nil {
+		return nil, false
+	}
+	var fn *ssa.Function
+	var args []SV
+	switch f := n.Fun.(type) {
+	case *ast.SelectorExpr:
+		recv := env.eval(f.X)
+		var rt types.Type
+		switch r := recv.(type) {
+		case *StructV:
+			rt = r.Ty
+		case *PtrV:
+			rt = r.Ty
+		case *SliceV:
+			rt = r.Ty
+		case *Scalar:
+			rt = r.Ty
+		}
+		if rt == nil {
+			return nil, false
+		}
+		sel := e.w.Prog.MethodSets.MethodSet(rt).Lookup(nil, f.Sel.Name)
+		if sel == nil {
+			if named, ok := rt.(*types.Named); ok {
+				sel = e.w.Prog.MethodSets.MethodSet(rt).Lookup(named.Obj().Pkg(), f.Sel.Name)
+			}
+			if pt, ok := rt.(*types.Pointer); ok && sel == nil {
+				if named, ok := pt.Elem().(*types.Named); ok {
+					sel = e.w.Prog.MethodSets.MethodSet(rt).Lookup(named.Obj().Pkg(), f.Sel.Name)
+				}
+			}
+		}
+		if sel == nil {
+			return nil, false
+		}
+		fn = e.w.Prog.MethodValue(sel)
+		args = append(args, recv)
+	case *ast.Ident:
+		if env.pkg == nil {
+			return nil, false
+		}
+		sp := e.w.Prog.Package(env.pkg)
+		if sp == nil || sp.Func(f.Name) == nil {
+			// look through the module's imported packages
+			for _, imp := range env.pkg.Imports() {
+				if ip := e.w.Prog.Package(imp); ip != nil && strings.HasPrefix(imp.Path(), modPath) && ip.Func(f.Name) != nil {
+					sp = ip
+				}
+			}
+		}
+		if sp == nil || sp.Func(f.Name) == nil {
+			return nil, false
+		}
+		fn = sp.Func(f.Name)
+	default:
+		return nil, false
+	}
+	if fn == nil {
+		return nil, false
+	}
+	for _, a := range n.Args {
+		args = append(args, env.eval(a))
+	}
+	for i := range args {
+		if i < len(fn.Params) {
+			args[i] = retype(args[i], fn.Params[i].Type())
+		}
+	}
+	return e.specCall(env, fn, args), true
+}
+
 
 var namedTypes = map[string]types.Type{}
 
